@@ -323,7 +323,7 @@ RULES = {
     # vectors: `v.into_iter().map(f)` -> `v.vmap(f)`, then `.filter_map(g)` -> `.vfilter_map(g)`, `.reduce(h)` -> `.vreduce(h)`;
     # R16b: `.unwrap_or_else(Local::now)` -> `.unwrap_or_else(|| .. { Local::now() })` (a fn item as a closure value; the closure
     # carries the contract of the prelude's Local::now: `ensures r == clock_now()`)
-    "R16": [(".into_iter().map(", ".vmap("), (".filter_map(", ".vfilter_map("), (".reduce(", ".vreduce(")],
+    "R16": [(".into_iter().map(", ".vmap("), (".filter_map(", ".vfilter_map("), (".reduce(", ".vreduce("), (".find_map(", ".vfind_map(")],
     "R16b": [(".unwrap_or_else(Local::now)", ".unwrap_or_else(|| -> (r: DateTime<Local>) ensures r == clock_now() { Local::now() })")],
     # R3b (computed): a closure whose single parameter is a tuple pattern gets a variable parameter `p0__` and a destructuring `let`
     "R3b": [],
@@ -399,6 +399,11 @@ RULES = {
     # shapes of `write!(f, ..)` used there -> shim methods: `write!(f, "{}", e)` -> `f.vwrite(e.as_str())`, `write!(f, "<literal>")` ->
     # `f.vwrite("<literal>")`, `write!(f, "{name} = {}", e)` -> `f.vwrite3(name, " = ", e.as_str())`
     "R40": [("std::fmt::Formatter<'_>", "VFormatter")],
+    # R43 (computed + literal): check_timestamp_format: chrono's delayed formats -> opaque shims that remember how they were made, and
+    # `write!(infix, "{}", <e>)` -> `vwrite_display(&mut infix, &(<e>))`
+    "R43": [("now.naive_utc().format(format)", "vfmt_naive(format)"), ("now.format(format)", "vfmt_local(format)"),
+            ("chrono::Local::now().format(format)", "vfmt_local(format)"), ("chrono::Local::now().naive_utc().format(format)", "vfmt_naive(format)"),
+            ("std::io::Error::new(", "vio_error_new(")],
     # R42: the OsString / PathBuf conversions of the suffix filter in collision_free_infix_for_rotated_file -> shims over the path text
     "R42": [("PathBuf::from(pb)", "vpathbuf_from(pb)"),
             ('pb2.extension()==Some(OsString::from("gz").as_ref())', 'vext_is(&pb2, "gz")'),
@@ -512,6 +517,20 @@ def apply_rule(sf, a, b, rule, edits):
                 edits.replace(tail[0], tail[3] + 1, [Piece("")])
                 hits += 1
         return hits
+    if rule == "R43":
+        T = lambda q: toks[sigidx[q]]
+        for p in range(len(sigidx) - 7):
+            if [T(p + q).text for q in range(5)] == ["write", "!", "(", "infix", ","] and T(p + 5).text == '"{}"' and T(p + 6).text == ",":
+                close = sf.br[sigidx[p + 2]]
+                last = [k for k in sigidx if k < close][-1]
+                # the argument expression keeps its own rewrites: only the macro frame is replaced
+                try:
+                    edits.replace(sigidx[p], sigidx[p + 6] + 1, [Piece("vwrite_display(&mut infix, &(", sf, T(p).start)])
+                    edits.replace(close, close + 1, [Piece("))")])
+                    hits += 1
+                except ExtractError:
+                    pass
+        # the literal patterns of the rule follow
     if rule == "R41":
         for p in range(len(sigidx)):
             if toks[sigidx[p]].text == "[" and sigidx[p] in sf.br:
